@@ -15,6 +15,8 @@
 #include "vsess.h"
 #include <signal.h>
 #include <sys/wait.h>
+#include <netinet/in.h>
+#include <arpa/inet.h>
 
 #define MAXS 8
 #define MAXC 24
@@ -31,6 +33,13 @@ typedef struct {
 static rfbScreenInfoPtr screens[MAXS]; static int nscreens;
 static conn_t conns[MAXC]; static int nconns;
 static const char *scratch = ".";
+
+/* input events handed to the application (kbdAddEvent / ptrAddEvent) through the UDP channel, process-wide */
+static int input_events = 0;
+static int udp_port[MAXS]; static int udp_peer[MAXS];
+/* only events of the screen's UDP pseudo-client are counted (input of RFB_NORMAL clients is C06) */
+static void count_kbd(rfbBool down, rfbKeySym key, rfbClientPtr cl) { if (cl && cl == cl->screen->udpClient) input_events++; }
+static void count_ptr(int mask, int x, int y, rfbClientPtr cl) { if (cl && cl == cl->screen->udpClient) input_events++; }
 
 static void gone_hook(rfbClientPtr cl) {
   conn_t *c = (conn_t *)cl->clientData;
@@ -76,7 +85,7 @@ static void pump_screen(int s) {
 
 static void obs(void) {
   int i; size_t j;
-  printf("o err=0 unmod=0");
+  printf("o err=0 unmod=0 in=%d", input_events);
   for (i = 0; i < nconns; i++) {
     conn_t *c = &conns[i];
     int st = (c->gone || !c->cl || c->cl->sock < 0) ? -1 : (int)c->cl->state;
@@ -120,6 +129,7 @@ static void do_screen(char **tok, int nt) {
     f = fopen(fn, "wb"); if (f) { fwrite(ct, 1, cn, f); fclose(f); }
     s->authPasswdData = (void *)fn;      /* default passwordCheck = rfbDefaultPasswordCheck */
   }
+  s->kbdAddEvent = count_kbd; s->ptrAddEvent = count_ptr;
   rfbInitServer(s);
   screens[nscreens++] = s;
   obs();
@@ -173,6 +183,36 @@ static void run_case(char **lines, int nl) {
       int s = atoi(tok[1]); unsigned char ct[64]; size_t cn = unhex(tok[2], ct, 64);
       if (s >= 0 && s < nscreens && screens[s]->passwordCheck != rfbCheckPasswordByList && screens[s]->authPasswdData) {
         FILE *f = fopen((char *)screens[s]->authPasswdData, "wb"); if (f) { fwrite(ct, 1, cn, f); fclose(f); }
+      }
+      obs();
+    }
+    else if (!strcmp(tok[0], "udpon") && nt == 2) {
+      /* what rfbInitSockets does for screen->udpPort != 0 (ephemeral port on the loopback interface) */
+      int s = atoi(tok[1]);
+      if (s >= 0 && s < nscreens && screens[s]->udpSock == RFB_INVALID_SOCKET) {
+        rfbSocket u = rfbListenOnUDPPort(0, htonl(INADDR_LOOPBACK));
+        if (u != RFB_INVALID_SOCKET) {
+          struct sockaddr_in a; socklen_t al = sizeof a;
+          getsockname(u, (struct sockaddr *)&a, &al);
+          screens[s]->udpPort = ntohs(a.sin_port); udp_port[s] = screens[s]->udpPort;
+          screens[s]->udpSock = u;
+          FD_SET(u, &(screens[s]->allFds)); screens[s]->maxFd = rfbMax((int)u, screens[s]->maxFd);
+        }
+      }
+      obs();
+    }
+    else if (!strcmp(tok[0], "udp") && nt == 3) {
+      /* a datagram from a fresh, unauthenticated peer */
+      int s = atoi(tok[1]); unsigned char b[64]; size_t n = unhex(tok[2], b, sizeof b);
+      if (s >= 0 && s < nscreens && udp_port[s]) {
+        int u; struct sockaddr_in a; memset(&a, 0, sizeof a);
+        /* one peer per screen: the library connect()s its UDP socket to the first peer it hears from */
+        if (!udp_peer[s]) udp_peer[s] = socket(AF_INET, SOCK_DGRAM, 0);
+        u = udp_peer[s];
+        a.sin_family = AF_INET; a.sin_port = htons(udp_port[s]); a.sin_addr.s_addr = htonl(INADDR_LOOPBACK);
+        sendto(u, b, n, 0, (struct sockaddr *)&a, sizeof a);
+        { struct pollfd pf = { screens[s]->udpSock, POLLIN, 0 }; poll(&pf, 1, 200); }
+        pump_screen(s);
       }
       obs();
     }
